@@ -117,21 +117,26 @@ DescMatches(desc, name) == desc = <<"*">> \/ IsPrefixSeq(desc, name)
 NameMatch(descs, name) == \E i \in DOMAIN descs : DescMatches(descs[i], name)
 
 \* ---------- abstract expressions over the integer datamodel
-\* value expression e = [k, n, v]: "const" v | "var" n | "inc" n (n+1) | "err"
+\* A declared data element that has not been assigned yet (late binding) holds NoneVal.
+NoneVal == -999999
+ValStr(v) == IF v = NoneVal THEN "NONE" ELSE ToString(v)
+\* value expression e = [k, n, v]: "const" v | "var" n | "inc" n (n+1) | "in" v (In(state v) as 1/0) | "err"
 ExprErr(data, e) == e.k = "err" \/ (e.k \in {"var", "inc"} /\ e.n \notin DOMAIN data)
-ExprVal(data, e) == CASE e.k = "const" -> e.v
-                      [] e.k = "var" -> data[e.n]
-                      [] e.k = "inc" -> data[e.n] + 1
-                      [] OTHER -> 0
-\* condition c = [op, s, n, v]: "true" | "false" | "in" s | "notin" s | "lt" n v | "eq" n v | "err"
+                    \/ (e.k = "inc" /\ e.n \in DOMAIN data /\ data[e.n] = NoneVal)
+ExprVal(cfg, data, e) == CASE e.k = "const" -> e.v
+                           [] e.k = "var" -> data[e.n]
+                           [] e.k = "inc" -> data[e.n] + 1
+                           [] e.k = "in" -> (IF e.v \in cfg THEN 1 ELSE 0)
+                           [] OTHER -> 0
+\* condition c = [op, s, n, v]: "true" | "false" | "in" s | "notin" s | "lt" n v | "ge" n v | "eq" n v | "err"
 CondErr(data, c) == c.op = "err" \/ (c.op \in {"lt", "eq", "ge"} /\ c.n \notin DOMAIN data)
 CondVal(cfg, data, c) ==
   CASE c.op = "true" -> TRUE
     [] c.op = "false" -> FALSE
     [] c.op = "in" -> c.s \in cfg
     [] c.op = "notin" -> c.s \notin cfg
-    [] c.op = "lt" -> data[c.n] < c.v
-    [] c.op = "ge" -> data[c.n] >= c.v
+    [] c.op = "lt" -> data[c.n] # NoneVal /\ data[c.n] < c.v
+    [] c.op = "ge" -> data[c.n] # NoneVal /\ data[c.n] >= c.v
     [] c.op = "eq" -> data[c.n] = c.v
     [] OTHER -> FALSE
 
@@ -199,12 +204,12 @@ ExecIns(D, st, ins) ==
   CASE ins.op = "mark" ->
          IF \E i \in DOMAIN ins.e : ExprErr(st.data, ins.e[i])
          THEN [st |-> Enq(st, ErrorExecution), ok |-> FALSE]
-         ELSE [st |-> [st EXCEPT !.obs = Append(@, ObsMark(ins.tag, [i \in DOMAIN ins.e |-> ToString(ExprVal(st.data, ins.e[i]))]))], ok |-> TRUE]
+         ELSE [st |-> [st EXCEPT !.obs = Append(@, ObsMark(ins.tag, [i \in DOMAIN ins.e |-> ValStr(ExprVal(st.cfg, st.data, ins.e[i]))]))], ok |-> TRUE]
     [] ins.op = "raise" -> [st |-> Enq(st, ins.ev), ok |-> TRUE]
     [] ins.op = "assign" ->
          IF ins.n \notin DOMAIN st.data \/ ExprErr(st.data, ins.e[1])
          THEN [st |-> Enq(st, ErrorExecution), ok |-> FALSE]
-         ELSE [st |-> [st EXCEPT !.data[ins.n] = ExprVal(st.data, ins.e[1])], ok |-> TRUE]
+         ELSE [st |-> [st EXCEPT !.data[ins.n] = ExprVal(st.cfg, st.data, ins.e[1])], ok |-> TRUE]
     [] ins.op = "send" ->          \* <send target="#_internal">: static event, or eventexpr = e[1]
          IF ins.e # <<>> /\ ExprErr(st.data, ins.e[1])
          THEN [st |-> Enq(st, ErrorExecution), ok |-> FALSE]
@@ -274,8 +279,16 @@ ExitStates(D, st, tseq) ==
                IN [b EXCEPT !.cfg = @ \ {x}],
              s1, ex)
 
+\* late binding: the data of a state get their values when the state is entered for the first time, before onentry
+LateInit(D, s, x) ==
+  IF D.binding = "late" /\ x \notin s.entered
+  THEN [s EXCEPT !.data = [n \in DOMAIN s.data |->
+                             IF \E i \in DOMAIN D.sdata[x] : D.sdata[x][i].n = n
+                             THEN (CHOOSE e \in Range(D.sdata[x]) : e.n = n).v ELSE s.data[n]]]
+  ELSE s
 EnterOne(D, es, s, x) ==
-  LET a == [s EXCEPT !.obs = Append(@, ObsEnter(x)), !.cfg = @ \cup {x}, !.entered = @ \cup {x}]
+  LET a0 == [s EXCEPT !.obs = Append(@, ObsEnter(x)), !.cfg = @ \cup {x}]
+      a == [LateInit(D, a0, x) EXCEPT !.entered = @ \cup {x}]
       b == ExecBlocks(D, a, D.onentry[x])
       c == IF x \in es.defent /\ InitialT(D, x) # 0 THEN ExecBlock(D, b, Trans(D, InitialT(D, x)).block) ELSE b
       e == IF x \in DOMAIN es.dhc THEN ExecBlock(D, c, es.dhc[x]) ELSE c
@@ -303,7 +316,14 @@ ExitInterpreter(D, st) ==
 
 \* ---------- session state
 EmptyHist(D) == [s \in States(D) |-> <<>>]
-St0(D) == [cfg |-> {}, hist |-> EmptyHist(D), iq |-> <<>>, obs |-> <<>>, running |-> TRUE, data |-> D.vars, entered |-> {}]
+\* data elements exist from load time: top-level ones (D.vars) with their values, state-level ones (D.sdata) with
+\* their values under early binding and unassigned (NoneVal) under late binding
+StateVars(D) == UNION { { D.sdata[s][i].n : i \in DOMAIN D.sdata[s] } : s \in States(D) }
+InitOf(D, n) == (CHOOSE e \in UNION { Range(D.sdata[s]) : s \in States(D) } : e.n = n).v
+Data0(D) == [n \in DOMAIN D.vars \cup StateVars(D) |->
+               IF n \in DOMAIN D.vars THEN D.vars[n]
+               ELSE IF D.binding = "late" THEN NoneVal ELSE InitOf(D, n)]
+St0(D) == [cfg |-> {}, hist |-> EmptyHist(D), iq |-> <<>>, obs |-> <<>>, running |-> TRUE, data |-> Data0(D), entered |-> {}]
 Clear(s) == [s EXCEPT !.obs = <<>>]
 
 \* ---------- legal configuration (C01)
